@@ -1,4 +1,4 @@
-(* C19: the specification (hence, by LicCode.canon_spec, the code) is insensitive to ASCII case outside LicenseRef suffixes and to
+(* C19: the specification (hence, by LicCode.canon_spec, the code, on every input) is insensitive to ASCII case outside LicenseRef suffixes and to
    whitespace layout; canonical tokens are equivalent to the tokens they come from; hence idempotence. *)
 From Coq Require Import List Arith NArith Bool Lia.
 Import ListNotations.
@@ -206,17 +206,15 @@ Proof.
   change (tight (x :: y :: r')) with (x ++ (if streq x w_lp || streq y w_rp then [] else [32]) ++ tight (y :: r')).
   rewrite !forallb_app, Hx, IH. destruct (streq x w_lp || streq y w_rp); reflexivity.
 Qed.
-Lemma ascii_kfree s : forallb asciib s = true -> kfree s.
-Proof. intros H K. rewrite forallb_forall in H. specialize (H _ K). discriminate. Qed.
 
 (* ---------------------------------------------------------------- the function *)
 Definition outcome (s : str) (o : str) : result :=
   if nests_deeper_than limit_hard (spdx_tokens s) then Err else if nests_deeper_than limit_sure (spdx_tokens s) then Limit o else Ok o.
 
-Theorem canon_insensitive s s' : kfree s -> kfree s' -> Forall2 teq (spdx_tokens s) (spdx_tokens s') ->
+Theorem canon_insensitive s s' : Forall2 teq (spdx_tokens s) (spdx_tokens s') ->
   canon lics excs s = canon lics excs s'.
 Proof.
-  intros F F' H. rewrite !(canon_spec _ _ TOK) by assumption. unfold spec_canon.
+  intros H. rewrite !(canon_spec _ _ TOK). unfold spec_canon.
   fold (spec_toks lics excs (spdx_tokens s)) (spec_toks lics excs (spdx_tokens s')).
   assert (E : forall ts, (if spdx_tokens_ok lics excs ts then match canon_tokens lics excs false ts with Some l => Some (tight l) | None => None end else None)
               = match spec_toks lics excs ts with Some l => Some (tight l) | None => None end).
@@ -226,17 +224,17 @@ Qed.
 
 (* the canonical text of an accepted expression: its tokens are the canonical tokens, which are the same words *)
 Lemma canonical_text s out : spec_toks lics excs (spdx_tokens s) = Some out ->
-  kfree (tight out) /\ spdx_tokens (tight out) = out /\ Forall2 teq (spdx_tokens s) out.
+  forallb asciib (tight out) = true /\ spdx_tokens (tight out) = out /\ Forall2 teq (spdx_tokens s) out.
 Proof.
   unfold spec_toks. destruct (spdx_tokens_ok lics excs (spdx_tokens s)); [|discriminate]. intros H.
   destruct (canon_tokens_shape _ _ _ H) as [A B]. split; [|split].
-  - apply ascii_kfree. now apply tight_ascii.
+  - now apply tight_ascii.
   - rewrite spdx_tokens_split. now apply retokenise.
   - now apply canon_tokens_same_words with false.
 Qed.
-Theorem canon_idempotent s o : kfree s -> (canon lics excs s = Ok o \/ canon lics excs s = Limit o) -> canon lics excs o = canon lics excs s.
+Theorem canon_idempotent s o : (canon lics excs s = Ok o \/ canon lics excs s = Limit o) -> canon lics excs o = canon lics excs s.
 Proof.
-  intros F H. pose proof (canon_spec _ _ TOK s F) as S. unfold spec_canon in S.
+  intros H. pose proof (canon_spec _ _ TOK s) as S. unfold spec_canon in S.
   assert (E : exists out, spec_toks lics excs (spdx_tokens s) = Some out /\ o = tight out).
   { unfold spec_toks. destruct (spdx_tokens_ok lics excs (spdx_tokens s)).
     - destruct (canon_tokens lics excs false (spdx_tokens s)) as [out|]; [|rewrite S in H; destruct H; discriminate].
@@ -245,7 +243,7 @@ Proof.
       destruct (nests_deeper_than limit_sure (spdx_tokens s)); destruct H as [H|H]; congruence.
     - rewrite S in H. destruct H; discriminate. }
   destruct E as (out & E & ->). destruct (canonical_text s out E) as (K & T & Q).
-  symmetry. apply canon_insensitive; auto. now rewrite T.
+  symmetry. apply canon_insensitive. now rewrite T.
 Qed.
 End Tables.
 
@@ -268,11 +266,6 @@ Proof.
 Qed.
 Lemma Forall2_in_left {A B} (R : A -> B -> Prop) l l' a : Forall2 R l l' -> In a l -> exists b, In b l' /\ R a b.
 Proof. induction 1 as [|x y l l' Hxy _ IH]; intros H; [destruct H|]. destruct H as [->|H]; [exists y; split; [now left|exact Hxy]|]. destruct (IH H) as (b & ? & ?). exists b. split; [now right|assumption]. Qed.
-Lemma lc_ascii c : asciib (lc c) = asciib c.
-Proof.
-  unfold lc, asciib. destruct ((65 <=? c) && (c <=? 90)) eqn:E; [|reflexivity].
-  apply andb_true_iff in E as [A B]. apply N.leb_le in A, B. transitivity true; [|symmetry]; apply N.ltb_lt; lia.
-Qed.
 Lemma accepted_ascii s out : Forall2 teq (spdx_tokens s) out -> Forall (fun t => forallb asciib t = true) out ->
   forall c, In c s -> asciib c = true \/ is_ws c = true.
 Proof.
